@@ -13,6 +13,7 @@ bool observe_in_child(const std::string &path, std::vector<std::string> &lines, 
     fflush(nullptr); pid_t pid = fork();
     if (pid == 0) {
         close(fd[0]); std::string out;
+        setenv("TZ", "JST-9", 1); tzset();   // the other process may live in another time zone: stored times are absolute
         try { File f = File::open(path, FileMode::ReadOnly); Observer ob; ONode t = ob.file(f); for (auto &l : flatten(t)) { out += l; out += '\n'; } f.close(); }
         catch (std::exception &e) { out = std::string("<child-exception:") + e.what() + ">\n"; }
         size_t off = 0; while (off < out.size()) { ssize_t w = write(fd[1], out.data() + off, out.size() - off); if (w <= 0) break; off += (size_t)w; }
@@ -55,7 +56,7 @@ void reopen_point(Ctx &c, Graph &g, const std::string &after) {
         c.count("reopen_comparisons"); c.count("nodes_compared", (long)nodes); c.count("getters_called", o2.getters);
         if (m == FileMode::ReadOnly) { grab(); g.close(); }   // handles of the read-only session may outlive it as well
     }
-    if (c.rng.chance(0.15)) {   // a second process must see the same tree (the writer holds the file open read-write: close first)
+    if (c.rng.chance(0.25)) {   // a second process must see the same tree (the writer holds the file open read-write: close first)
         g.close(); std::vector<std::string> lines; std::string err;
         c.op("observe-from-second-process");
         if (!observe_in_child(g.path, lines, err)) c.check(false, "C02/second-process/failed", err);
